@@ -515,3 +515,23 @@ impl<'a> MoveContext<'a> {
         MoveContext::Activity { solution_ctx, route_ctx, activity_ctx }
     }
 }
+
+/// Verification-only seam: exposes stored state entries (read only).
+/// Compiled only with `--cfg reinterpretcat_vrp_verif`; shipped builds are unaffected.
+#[cfg(reinterpretcat_vrp_verif)]
+impl RouteState {
+    /// Returns all stored entries.
+    pub fn verif_entries(&self) -> Vec<(TypeId, Arc<dyn Any + Send + Sync>)> {
+        self.index.iter().map(|(key, value)| (*key, value.clone())).collect()
+    }
+}
+
+/// Verification-only seam: exposes stored state entries (read only).
+/// Compiled only with `--cfg reinterpretcat_vrp_verif`; shipped builds are unaffected.
+#[cfg(reinterpretcat_vrp_verif)]
+impl SolutionState {
+    /// Returns all stored entries.
+    pub fn verif_entries(&self) -> Vec<(TypeId, Arc<dyn Any + Send + Sync>)> {
+        self.index.iter().map(|(key, value)| (*key, value.clone())).collect()
+    }
+}
